@@ -28,8 +28,10 @@ Oracle: bit-serial CRCs written from USB 2.0 8.3.5 and USB 3.2 7.2.1.1.3 / 7.2.1
   (published / recorded vectors); a failing cross-check aborts the case (=> inconclusive, never 'held').
 Module outputs are compared every cycle under the two hypotheses "crc port follows the register combinationally"
   and "one more output register"; one hypothesis must explain the whole case.
-Not judged: cycles after contradictory controls (rx_valid together with tx_valid, two advance_* strobes at once) --
-  generated now and then, comparison suspended until the next restart.  Acceptance of whole data / header packets by
+Judged priority: clear together with advance_* on the USB3 CRCs restarts the CRC (documented meaning of `clear`; it
+  happens in luna's link transmitter, which holds clear while idle) -- generated in 40 % of the restarts.
+Not judged: cycles after contradictory controls (rx_valid together with tx_valid -- impossible on a half-duplex bus --
+  and two advance_* strobes at once): generated now and then, comparison suspended until the next restart.  Acceptance of whole data / header packets by
   the receivers that use the CRC-16 / CRC-32 modules is decided by C02 / C37 / C40; here only the token detector's use of
   the CRC5 builder is exercised in context.
 Deviations from DESIGN section 7: random volume per run is ~5e5 step evaluations instead of 1 M (pysim needs
@@ -54,6 +56,8 @@ REQUIRED_BINS = (["crc5_usb2_all_inputs", "crc5_usb3_all_inputs", "token_good_cr
                   "usb2_crc16_basis_done", "usb2_crc16_restart_mid_packet", "usb2_crc16_restart_with_byte", "usb2_crc16_tx_source",
                   "usb2_crc16_rx_source", "usb2_crc16_back_to_back", "usb2_crc16_gaps", "usb2_crc16_long_run",
                   "usb2_crc16_from_reset", "usb3_crc16_from_reset", "usb3_crc32_from_reset",
+                  "usb3_crc16_clear_with_advance", "usb3_crc32_clear_with_advance", "usb2_crc16_rx_tx_together_unjudged",
+                  "usb2_crc16_interfaces_1", "usb2_crc16_interfaces_2", "usb2_crc16_interfaces_3",
                   "usb3_crc16_basis_done", "usb3_crc16_restart_mid_packet", "usb3_crc16_three_words", "usb3_crc16_long_run",
                   "usb3_crc32_basis_done", "usb3_crc32_trailing_1", "usb3_crc32_trailing_2", "usb3_crc32_trailing_3",
                   "usb3_crc32_trailing_after_0_words", "usb3_crc32_restart_mid_packet", "usb3_crc32_long_run"]
@@ -66,6 +70,10 @@ ASSUMPTIONS = [
     "equation builders take/return the module's register format; register -> CRC value is the module's own output stage ~x[::-1]",
     "a CRC value is laid out as the module's crc port: little-endian bytes = check-field bytes in transmission order",
     "USBDataPacketCRC: a restart wins over a data byte presented in the same cycle (the PID byte is not part of the CRC)",
+    "HeaderPacketCRC / DataPacketPayloadCRC: clear together with an advance strobe restarts the CRC ('clears the CRC, "
+    "restoring it to its initial value'); the word offered in that cycle belongs to no packet (the link transmitter holds "
+    "clear while idle with its data sink connected)",
+    "rx_valid together with tx_valid on USBDataPacketCRC cannot occur on a half-duplex bus: generated, not judged",
     "pysim evaluates combinational logic faithfully",
 ]
 EXHAUSTIVE = False
@@ -454,7 +462,9 @@ def case_usb2_crc16(rng, tier, res):
     from amaranth import Elaboratable, Module
     from luna.gateware.usb.usb2.packet import USBDataPacketCRC, DataCRCInterface
     crc = USBDataPacketCRC()
-    ifs = [DataCRCInterface(), DataCRCInterface()]
+    n_if = rng.choice([1, 2, 3])
+    ifs = [DataCRCInterface() for _ in range(n_if)]
+    res.bin("usb2_crc16_interfaces_%d" % n_if)
     for i in ifs:
         crc.add_interface(i)
     lane = make_lane(crc._generate_next_crc, 16, 8)
@@ -472,8 +482,8 @@ def case_usb2_crc16(rng, tier, res):
     full_slice = tier == "thorough"
     pairs, nb = pair_stream(rng, 16, 8, 1500)
     b = Bench(dut, domain="usb", freq=60e6, max_cycles=max(ncyc, len(pairs)) + 20)
-    sigs = [crc.rx_data, crc.rx_valid, crc.tx_data, crc.tx_valid, ifs[0].start, ifs[1].start, ifs[0].crc, ifs[1].crc,
-            lane.s, lane.d, lane.o]
+    sigs = [crc.rx_data, crc.rx_valid, crc.tx_data, crc.tx_valid, lane.s, lane.d, lane.o]
+    sigs += [i.start for i in ifs] + [i.crc for i in ifs]
     b.watch(*sigs)
     res.desc = {"kind": "usb2_crc16", "slice": slice_id, "full_slice": full_slice, "ops": []}
     res.sig("usb2_crc16", slice_id, pairs[nb:nb + 64])
@@ -491,13 +501,15 @@ def case_usb2_crc16(rng, tier, res):
                 res.violation("usb2_crc16_byte_step_wrong", "crc_before=%#06x byte=%#04x crc_after=%#06x expected=%#06x" % (s, d, o, exp))
         # module
         t = b.cycle
-        o0, o1 = b.get(ifs[0].crc), b.get(ifs[1].crc)
-        if o0 != o1:
-            res.violation("usb2_crc16_interfaces_disagree", "cycle %d: %#06x vs %#06x" % (t, o0, o1))
+        o0 = b.get(ifs[0].crc)
+        for i_ in ifs[1:]:
+            o1 = b.get(i_.crc)
+            if o0 != o1:
+                res.violation("usb2_crc16_interfaces_disagree", "cycle %d: %#06x vs %#06x" % (t, o0, o1))
         hyp.check(t, o0, st["value"], st["known"])
         if st["known"]:
             res.event("usb2_crc16_module_compared")
-        start = b.get(ifs[0].start) or b.get(ifs[1].start)
+        start = any(b.get(i_.start) for i_ in ifs)
         rxv, txv = b.get(crc.rx_valid), b.get(crc.tx_valid)
         if start:
             st["value"], st["known"], st["n"] = 0, True, 0      # CRC value of the empty message
@@ -521,7 +533,7 @@ def case_usb2_crc16(rng, tier, res):
             # one "packet": restart, then bytes from one source
             src = rng.choice(["rx", "rx", "tx"])
             res.bin("usb2_crc16_%s_source" % src)
-            who = rng.randrange(2)
+            who = rng.randrange(n_if)
             style = rng.choice(["b2b", "gaps", "random"])
             n = rng.choice([0, 1, 2, 3, 8, 9, 64, rng.randint(0, 40), rng.randint(100, 300) if rng.random() < 0.15 else 5])
             fill = rng.choice(["random", "random", "zeros", "ones", "ramp"])
@@ -570,8 +582,9 @@ def case_usb2_crc16(rng, tier, res):
                     b.set(crc.rx_valid, 1)
                     b.set(crc.rx_data, byte)
                     b.set(crc.tx_data, rng.randrange(256))
-                    if rng.random() < 0.01:
+                    if rng.random() < 0.02:
                         b.set(crc.tx_valid, 1)           # contradictory: unjudged until the next restart
+                        res.bin("usb2_crc16_rx_tx_together_unjudged")
                 else:
                     b.set(crc.tx_valid, 1)
                     b.set(crc.tx_data, byte)
@@ -670,10 +683,16 @@ def case_usb3_crc16(rng, tier, res):
                 res.bin("usb3_crc16_from_reset")
             else:
                 b.set(crc.clear, 1)
+                if rng.random() < 0.4:
+                    # clear while a word is being offered (the link transmitter holds clear in IDLE while its data sink
+                    # may already be valid): the CRC restarts, the word is not part of the new packet
+                    b.set(crc.advance_crc, 1)
+                    res.bin("usb3_crc16_clear_with_advance")
             b.set(crc.data_input, rng.getrandbits(32))
             yield
             t += 1
             b.set(crc.clear, 0)
+            b.set(crc.advance_crc, 0)
             abort_at = rng.randrange(n) if (n > 1 and rng.random() < 0.3) else None
             if len(res.desc["ops"]) < 4:
                 res.desc["ops"].append({"words": n, "fill": fill, "abort_at": abort_at})
@@ -826,9 +845,15 @@ def case_usb3_crc32(rng, tier, res):
                 res.bin("usb3_crc32_from_reset")
             else:
                 b.set(crc.clear, 1)
+                if rng.random() < 0.4:
+                    k_ = rng.choice([4, 4, 3, 2, 1])
+                    b.set(adv[k_], 1)               # clear together with an advance strobe: the CRC restarts
+                    res.bin("usb3_crc32_clear_with_advance")
             b.set(crc.data_input, rng.getrandbits(32))
             yield
             b.set(crc.clear, 0)
+            for a_ in adv.values():
+                b.set(a_, 0)
             abort_at = rng.randrange(n) if (n > 1 and rng.random() < 0.25) else None
             if len(res.desc["ops"]) < 4:
                 res.desc["ops"].append({"words": n, "tail_bytes": tail, "fill": fill, "abort_at": abort_at})
